@@ -17,7 +17,7 @@ import (
 type layout string
 
 const (
-	layMem        layout = "all-in-memory"          // query heap decides (or the batch builder inside one batch)
+	layMem        layout = "all-in-memory"           // query heap decides (or the batch builder inside one batch)
 	layFlushed    layout = "one-file-part-per-batch" // query heap decides across file parts
 	layMergedAll  layout = "merged-all-at-once"      // mergeTwoBlocks decides
 	layMergedPair layout = "merged-pairwise-chain"   // merge of a merge
